@@ -627,3 +627,29 @@ package tmi
 //@       (forall h string :: {rawdom(existingFullProofs)[h]} h in existingFullProofs ==> mapvals(existingFullProofs)[h] != nil)
 //@   loop 2 invariant merged-map: existingFullProofs != nil && (forall h string :: {rawdom(existingFullProofs)[h]} h in existingFullProofs ==> mapvals(existingFullProofs)[h] != nil)
 //@   loop 2 invariant to-store-private: toStore.BlockSignatures != nil && fresh(toStore.BlockSignatures)
+
+// ---- a proposed header accepted by the mirror is filed in its view (C09 totality, C04 position) ----
+// proofsApart: two vote maps hold different proof objects (merging into one leaves the other's signer sets alone).
+//@ define proofsApart(m1, m2) = forall h1 string, h2 string :: {rawdom(m1)[h1], rawdom(m2)[h2]} h1 in m1 && h2 in m2 ==> ref(mapvals(m1)[h1]) != ref(mapvals(m2)[h2])
+//@ iface tmstore.RoundStore.SaveRoundProposedHeader(st, ctx, ph)
+//@   modifies nothing
+//@ iface gcrypto.CommonMessageSignatureProofScheme.CanMergeFinalizedProofs(sch)
+//@   modifies nothing
+//@ func Kernel.addProposedHeader
+//@   property C09 C04
+//@   requires KInv(s) && KBounds(s) && SepInv3(s) && VInv(s.Voting) && VInv(s.NextRound) && powerOK(s.Voting) && powerOK(s.NextRound) && kernelReady(k, s)
+//@   requires s.Committing.Height != 0 ==> VInv(s.Committing)
+//@   requires no-committing-view-yet: s.Committing.Height == 0 ==> s.Committing.PrecommitProofs == nil
+//@   requires k.cmspScheme != nil && ph.ProposerPubKey != nil
+//@   requires version-headroom: s.Voting.Version < MAXU32 - 4 && s.NextRound.Version < MAXU32 - 4 && s.Committing.Version < MAXU32 - 4
+//@   requires header-extends-the-committing-header: (s.Committing.Height != 0 ==> bytes(ph.Header.PrevBlockHash) == bytes(s.CommittingHeader.Hash)) &&
+//@       psum(ph.Header.NextValidatorSet.Validators, allbits(), len(ph.Header.NextValidatorSet.Validators)) <= MAXU64
+//@   requires views-hold-their-own-proofs: proofsApart(s.Committing.PrecommitProofs, s.Voting.PrecommitProofs) && proofsApart(s.Committing.PrecommitProofs, s.NextRound.PrecommitProofs) &&
+//@       distinctProofs(s.Committing.PrecommitProofs)
+//@   ensures positions: s.Committing.Height == old(s.Committing.Height) || s.Committing.Height == old(s.Voting.Height)
+//@   modifies memory except Kernel, hmax(0), hhash(s.Voting.Height), msvh(0), msvr(0), msch(0), mscr(0), chanclosed(s.StateMachineViewManager.roundEntrance.HeightCommitted), ghost pbits
+//@   loop 2 invariant views-stay-verified: VInv(s.Voting) && VInv(s.NextRound) && (s.Committing.Height != 0 ==> VInv(s.Committing)) && KInv(s) && KBounds(s) && SepInv3(s) && kernelReady(k, s) &&
+//@       powerOK(s.Voting) && powerOK(s.NextRound) && proofsApart(s.Committing.PrecommitProofs, s.Voting.PrecommitProofs) && proofsApart(s.Committing.PrecommitProofs, s.NextRound.PrecommitProofs) &&
+//@       distinctProofs(s.Committing.PrecommitProofs)
+//@   loop 2 invariant backfill-view: backfillVRV == addr(s.Committing) && (s.Committing.Height == 0 ==> s.Committing.PrecommitProofs == nil)
+//@   loop 2 invariant headroom: s.Voting.Version < MAXU32 - 3 && s.NextRound.Version < MAXU32 - 3 && s.Committing.Version < MAXU32 - 3
